@@ -7,6 +7,12 @@ VERIF = Path(__file__).resolve().parent.parent
 
 # pid -> (engine, technique, level text, level_note, design_ref)
 CHECKS = {
+ 'C01': ('semantics', 'TLC enumerates rule shapes (MC_Grammar) + seeded abstract grammars -> fggs.sum_products x 4 semirings x 3 methods x 2 dtypes -> TLC judge (Trace_SumProduct) compares every tensor entry with the sum-product computed by definition (Semantics.tla) on exact carriers',
+         'Every start-rule shape of a small universe (<=2-3 nodes, <=2-3 edges incl. nullary, repeated attachment, rule-less nonterminal, edgeless nodes/externals) exhaustively, plus seeded grammars with up to 4 nonterminals, zero and infinite weights; the oracle is an independent definitional evaluation in TLA+ with exact integer arithmetic, itself checked to be a fixed point of the equations (R3).',
+         'Trusted: TLC, Semantics.tla, the projection of floats onto the integer carrier (exact for Real/Viterbi/Bool, an interval of naturals within 1e-4/1e-9 of exp(result) for Log). Weights are integers or infinite; float rounding on general weights is outside the model.', 'DESIGN.md#c01'),
+ 'C08': ('semiring', 'TLC proves the laws on the carriers (MC_Semiring, R3) -> add/mul/sub/star/sum/from_int of the 4 semirings on all pairs/triples of carrier points, on Tensors and on PatternedTensors of 6 patterns -> TLC judge (Trace_Semiring) against the carrier operations',
+         'All triples of carrier points (naturals incl. 0 and INF; integer log-weights incl. -INF/+INF; booleans; quarters for star) for every law, both dtypes, and all pairs of operand representations (dense, expanded, diagonal with default zero/one/INF, sum-axis embedding) for add/mul/sub.',
+         'Trusted: TLC, Semiring.tla. The claim is restricted to the exact sub-carrier and the branch points of the closed forms: arbitrary finite floats (subnormals, huge values) cannot be enumerated by TLC and the laws do not hold bit-exactly under rounding.', 'DESIGN.md#c08'),
  'C10': ('treedec', 'TLC enumerates all graphs (MC_TreeDec; R3: DP treewidth = min over all elimination orders) -> tree_decomposition x 3 methods, min_fill, minor_min_width, quickbb -> TLC judges validity and optimality by definition (Trace_TreeDec)',
          'Exhaustive over every labelled simple graph on <=5 (quick) / <=6 (thorough) vertices in two vertex insertion orders, structured graphs (cliques, paths, cycles, stars, grids) and seeded graphs on 7-9 vertices; TLC decides tree-ness, coverage, running intersection and computes the treewidth by subset DP, itself cross-checked against all elimination orders (R3).',
          'Trusted: TLC, TreeDec.tla (definition of tree decomposition, treewidth DP), the driver that converts the returned dict of frozensets into bags/edges. Empty graph: only validity (width conventions differ).', 'DESIGN.md#c10'),
